@@ -7,8 +7,22 @@ duplicated), in the exact order gen.py emitted them; `isEnum` marks the dictiona
 
 Also emitted (supporting lemma of DESIGN §8, C18): for every `_DESCR_*` dictionary of elf/descriptions.py that is
 keyed by the names of an ENUM_* table, the pair (ENUM table id, names without a description).
+
+Also emitted (C17, "range-marker" rule): for every table of the index, the list of marker flags parallel to its
+entries: flag i says whether the NAME of entry i denotes a range of codes, a mask or a count (`*_LOOS`, `*_HIPROC`,
+`*_LO_*`, `*_lo_user`, `*NUM` ...) rather than one code.  The flags are computed by `RANGE_MARKER` below (the same
+regex the harness uses; the harness and the driver's `selfcheck` (Spec.isRangeMarker on the String names) both
+re-derive every flag, so the regex is tied from two sides).
 """
+import re
 import sys
+
+# names that denote a RANGE of codes, a mask or a count — never the name of one code (gABI / DWARF "lo/hi" conventions)
+RANGE_MARKER = re.compile(r'(_LO(OS|PROC|USER|RESERVE|SUNW)?$|_HI(OS|PROC|USER|RESERVE|SUNW)?$|_LO_|_HI_|_lo_user$|_hi_user$|NUM$)')
+
+
+def is_marker(name):
+    return bool(RANGE_MARKER.search(name))
 
 
 def name_key(s):
@@ -29,6 +43,7 @@ def generate(repo):
         # refuse: an empty index makes every per-table theorem and the coverage theorem fail
         L.append('def tableIndex : List (Nat × String × Bool × List (Nat × Int)) := []')
         L.append('def tableIndexComplete : Bool := false')
+        L.append('def markerIndex : List (Nat × List Bool) := []')
         rep['refused'] = 'gen.py table lists not visible'
     else:
         ents = []
@@ -41,6 +56,20 @@ def generate(repo):
         L.append('def tableIndex : List (Nat × String × Bool × List (Nat × Int)) :=\n    [%s]' % ',\n     '.join(ents))
         L.append('def tableIndexComplete : Bool := %s' % ('true' if len(set(keys)) == len(keys) else 'false'))
         rep['tables'] = len(ents)
+        # ---- marker flags, parallel to the entries of each table (same order as tableIndex) ----------------
+        ments, nmark = [], 0
+        for tid, items in [(t[0], t[1]) for t in tables] + [(c[0], c[1]) for c in const_tables]:
+            if not all(isinstance(n, str) for n, _ in items):
+                # refuse: a flag list of the wrong length makes the table's theorem fail
+                ments.append('(%d, [])' % name_key(tid))
+                rep.setdefault('marker_refused', []).append(tid)
+                continue
+            flags = [is_marker(n) for n, _ in items]
+            nmark += sum(flags)
+            ments.append('(%d, [%s])' % (name_key(tid), ', '.join('true' if f else 'false' for f in flags)))
+        L.append('/-- (id key, range-marker flag of every entry of the table, in entry order) for every table of the index -/')
+        L.append('def markerIndex : List (Nat × List Bool) :=\n    [%s]' % ',\n     '.join(ments))
+        rep['marker_names'] = nmark
     # ---- C18 supporting data: ENUM names without a _DESCR_ entry -------------------------------------
     try:
         sys.path.insert(0, repo)
